@@ -126,6 +126,9 @@ package checks
 //     recording in the `done` map are keyed by the text of the selector itself.
 //@   at lookup map#1 assert [C16] arg1 == pureCall("(*github.com/prometheus/prometheus/promql/parser.VectorSelector).String", selector)
 //@   at store mapupdate assert [C16] arg1 == pureCall("(*github.com/prometheus/prometheus/promql/parser.VectorSelector).String", selector)
+// (e) the branch that treats a selector as an alert-state metric - no query is sent for it - is entered only for
+//     the two metrics Prometheus generates for alerts
+//@   loop 3 invariant [C16] metricName == "ALERTS" || metricName == "ALERTS_FOR_STATE"
 //@   ghost lastCount int
 //@   ghost countOK bool
 //@   after call instantSeriesCount set lastCount = result0
